@@ -66,6 +66,13 @@ var $callDeferred = (deferred, jsErr, fromPanic) => {
                     deferred = null;
                     continue;
                 }
+                if ($curGoroutine.exit && $curGoroutine.deferStack.length < $curGoroutine.exitDepth) {
+                    /* runtime.Goexit() is unwinding this goroutine and this frame was active when it was
+                       called (frames entered later, from deferred calls, return normally): continue through
+                       the callers' frames. */
+                    $curGoroutine.exitDepth = $curGoroutine.deferStack.length;
+                    throw null;
+                }
                 return;
             }
             var r = call[0].apply(call[2], call[1]);
